@@ -13,13 +13,12 @@ statements) stands for which callable of the specification (`SFun`: a piece of t
 reachable by name (`ClosRel`), through the `caller` namespaces (`NSRel`), and for the module's top-level defs.
 
 Covered by the guard `Good` (see `Props/C05.lean` for the exact list): defs – top-level, nested in defs, written
-inside a `<%call>` (directly, below a control line, inside a nested `<%call>`) – with buffered / `filter=` /
+inside a `<%call>` (directly or below a control line) – with buffered / `filter=` /
 `decorator=`, calls by name, `capture`, `<%call>` with body, body arguments and nested defs, `caller.x(…)`,
 `<%block>`s rendered in place (named and anonymous, with `buffered` / `filter=`), `<%include>` of another template of
 the set, all control structures.
 *Not* covered: `cached=`, blocks that contain defs or blocks or sit directly in the content of a `<%call>`, a block
-that reads the `loop` of a `% for` around it, defs *inside* a def that a `<%call>` exports from below a control line,
-two callables of one name in a scope, and the places where mako's generated code deviates from the specification:
+that reads the `loop` of a `% for` around it, two callables of one name in a scope, and the places where mako's generated code deviates from the specification:
 `<% return %>` inside a buffering def, `caller.x()` inside the argument list of a `<%call expr>`, `loop` used where no
 `LoopStack` is in scope.
 -/
@@ -91,8 +90,6 @@ def NoRet : Tmpl → Bool
 
 /-- names of the closures a scope declares -/
 def declNames (t : Tmpl) : List Name := (Spec.declared false 0 t).map (·.1)
-/-- the names a `<%call>` exports to its callee besides `body` -/
-def callNames (t : Tmpl) : List Name := (Spec.callDefsOf 0 t).map (·.1)
 
 def nodupB : List Name → Bool
   | [] => true
@@ -132,34 +129,19 @@ def Good (sc : Scope) (inLoop buf cv cb : Bool) : Tmpl → Bool
   | .include_ _ => true
   | .call e _ body =>
     GoodE inLoop true cv e && GoodCB { sc with top := false, cd := false } body &&
-      Good (bodyScope sc body) false false true true body && nodupB (callNames body)
-/-- the `<%def>`s written into the `ccall` of a `<%call>` that sits in scope `sc`: its direct children and, through
-    nested `<%call>` tags, theirs (`callDefs`); under a control line every def textually inside (`GoodDeep`) -/
+      Good (bodyScope sc body) false false true true body
+/-- the `<%def>`s written into the `ccall` of a `<%call>` that sits in scope `sc` (`callDefs`): the defs among the
+    children of the tag, also below its control lines; not those of nested `<%call>`s, which belong to their own
+    `ccall` (/repo 4a9e6c6) -/
 def GoodCB (sc : Scope) : Tmpl → Bool
   | .seq a b => GoodCB sc a && GoodCB sc b
   | .def_ name _ fl body =>
     name != 0 && !fl.cached && nodupB (declNames body) &&
       Good (subScope sc true body) false (Spec.isBuffering fl) (!effLex sc true body) false body
-  | .ite _ t e => GoodDeep sc t && GoodDeep sc e
-  | .for_ _ _ b => GoodDeep sc b
-  | .while_ _ b => GoodDeep sc b
-  | .try_ b h => GoodDeep sc b && GoodDeep sc h
-  | .call _ _ b => GoodCB sc b
-  | .block _ _ _ _ => false
-  | _ => true
-/-- below a control line of a `<%call>` (`deepDefs`): the lexer hangs everything that follows under the control
-    line, so `DefVisitor` writes every def textually inside into `ccall` - also the defs nested in those defs,
-    which is why their content has none here -/
-def GoodDeep (sc : Scope) : Tmpl → Bool
-  | .seq a b => GoodDeep sc a && GoodDeep sc b
-  | .def_ name _ fl body =>
-    name != 0 && !fl.cached && NoDefs body &&
-      Good (subScope sc true body) false (Spec.isBuffering fl) (!effLex sc true body) false body
-  | .ite _ t e => GoodDeep sc t && GoodDeep sc e
-  | .for_ _ _ b => GoodDeep sc b
-  | .while_ _ b => GoodDeep sc b
-  | .try_ b h => GoodDeep sc b && GoodDeep sc h
-  | .call _ _ b => GoodDeep sc b
+  | .ite _ t e => GoodCB sc t && GoodCB sc e
+  | .for_ _ _ b => GoodCB sc b
+  | .while_ _ b => GoodCB sc b
+  | .try_ b h => GoodCB sc b && GoodCB sc h
   | .block _ _ _ _ => false
   | _ => true
 end
@@ -202,7 +184,6 @@ inductive FunRel : Fun → Spec.SFun → Prop
   /-- `body()` of a `<%call>`: no frame of its own, `caller` is the closure variable of `ccall(caller)` -/
   | body (sc : Scope) (args : List Name) (body : Tmpl) (mod : Nat) :
       Good (bodyScope sc body) false false true true body = true → GoodCB { sc with top := false, cd := false } body = true →
-      nodupB (callNames body) = true →
       FunRel (bodyFun sc args body) ⟨args, noFlags, body, .body, mod⟩
 
 /-- closures reachable by name: generated code of the same callable, same module, never a `body()` -/
@@ -214,8 +195,7 @@ def LayerRel (layer : Layer) (sl : Spec.SLayer) : Prop :=
   ∃ (sc : Scope) (bargs : List Name) (body : Tmpl),
     layer.funs = collectDefs (callDefs { sc with top := false, cd := false } body) ++ [(0, bodyFun sc bargs body)] ∧
     sl = (0, ⟨bargs, noFlags, body, .body, layer.mod⟩) :: Spec.callDefsOf layer.mod body ∧
-    Good (bodyScope sc body) false false true true body = true ∧ GoodCB { sc with top := false, cd := false } body = true ∧
-    nodupB (callNames body) = true
+    Good (bodyScope sc body) false false true true body = true ∧ GoodCB { sc with top := false, cd := false } body = true
 
 /-- `caller` namespaces: layer by layer -/
 inductive NSRel : NS → Spec.SNS → Prop
@@ -377,9 +357,9 @@ theorem nodefs_facts : ∀ t : Tmpl, NoDefs t = true → NoDefsFacts t := by
     simp only [NoDefs, Bool.and_eq_true] at h
     have A := iha h.1
     have B := ihb h.2
-    exact ⟨fun sc => by simp [hoist, isSkips, A.hoist, B.hoist], fun sc => by simp [callDefs, isSkips, A.deepDefs, B.deepDefs],
+    exact ⟨fun sc => by simp [hoist, isSkips, A.hoist, B.hoist], fun sc => by simp [callDefs, isSkips, A.callDefs, B.callDefs],
       fun sc => by simp [deepDefs, isSkips, A.deepDefs, B.deepDefs],
-      fun sc => by simp [bodyHoist, isSkips],
+      fun sc => by simp [bodyHoist, isSkips, A.bodyHoist, B.bodyHoist],
       fun top mod => by simp [Spec.declared, A.declared, B.declared],
       fun mod => by simp [Spec.callDefsOf, A.callDefsOf, B.callDefsOf]⟩
   | try_ a b iha ihb =>
@@ -387,32 +367,32 @@ theorem nodefs_facts : ∀ t : Tmpl, NoDefs t = true → NoDefsFacts t := by
     simp only [NoDefs, Bool.and_eq_true] at h
     have A := iha h.1
     have B := ihb h.2
-    exact ⟨fun sc => by simp [hoist, isSkips, A.hoist, B.hoist], fun sc => by simp [callDefs, isSkips, A.deepDefs, B.deepDefs],
+    exact ⟨fun sc => by simp [hoist, isSkips, A.hoist, B.hoist], fun sc => by simp [callDefs, isSkips, A.callDefs, B.callDefs],
       fun sc => by simp [deepDefs, isSkips, A.deepDefs, B.deepDefs],
-      fun sc => by simp [bodyHoist, isSkips],
+      fun sc => by simp [bodyHoist, isSkips, A.bodyHoist, B.bodyHoist],
       fun top mod => by simp [Spec.declared, A.declared, B.declared],
       fun mod => by simp [Spec.callDefsOf, A.callDefsOf, B.callDefsOf]⟩
   | for_ x items b ih =>
     intro h
     simp only [NoDefs] at h
     have B := ih h
-    exact ⟨fun sc => by simp [hoist, B.hoist], fun sc => by simp [callDefs, B.deepDefs],
-      fun sc => by simp [deepDefs, B.deepDefs], fun sc => by simp [bodyHoist, isSkips],
+    exact ⟨fun sc => by simp [hoist, B.hoist], fun sc => by simp [callDefs, B.callDefs],
+      fun sc => by simp [deepDefs, B.deepDefs], fun sc => by simp [bodyHoist, B.bodyHoist],
       fun top mod => by simp [Spec.declared, B.declared], fun mod => by simp [Spec.callDefsOf, B.callDefsOf]⟩
   | while_ m b ih =>
     intro h
     simp only [NoDefs] at h
     have B := ih h
-    exact ⟨fun sc => by simp [hoist, B.hoist], fun sc => by simp [callDefs, B.deepDefs],
-      fun sc => by simp [deepDefs, B.deepDefs], fun sc => by simp [bodyHoist, isSkips],
+    exact ⟨fun sc => by simp [hoist, B.hoist], fun sc => by simp [callDefs, B.callDefs],
+      fun sc => by simp [deepDefs, B.deepDefs], fun sc => by simp [bodyHoist, B.bodyHoist],
       fun top mod => by simp [Spec.declared, B.declared], fun mod => by simp [Spec.callDefsOf, B.callDefsOf]⟩
   | call e args b ih =>
     intro h
     simp only [NoDefs] at h
     have B := ih h
-    exact ⟨fun sc => by simp [hoist, isSkips], fun sc => by simp [callDefs, B.callDefs],
+    exact ⟨fun sc => by simp [hoist, isSkips], fun sc => by simp [callDefs, isSkips],
       fun sc => by simp [deepDefs, B.deepDefs], fun sc => by simp [bodyHoist, isSkips],
-      fun top mod => by simp [Spec.declared], fun mod => by simp [Spec.callDefsOf, B.callDefsOf]⟩
+      fun top mod => by simp [Spec.declared], fun mod => by simp [Spec.callDefsOf]⟩
   | def_ _ _ _ _ _ => intro h; simp [NoDefs] at h
   | block _ _ _ _ _ => intro h; simp [NoDefs] at h
   | _ =>
